@@ -151,11 +151,12 @@ Definition tget (c : rcore) (a : addr) (k : slot) : word := default 0 (tstor c !
 
 Definition build_al (r : rules) (sender coinbase : addr) (dst : option addr)
            (l : list (addr * list slot)) : gset addr * gset (addr * slot) :=
-  let base : gset addr := {[sender]} ∪ (match dst with Some d => {[d]} | None => ∅ end) in
-  let addrs := foldr (λ e (s : gset addr), {[e.1]} ∪ s) base l in
-  let slots := foldr (λ e (s : gset (addr * slot)),
-                        foldr (λ k (s : gset (addr * slot)), {[(e.1, k)]} ∪ s) s e.2) ∅ l in
-  (if rShanghai r then {[coinbase]} ∪ addrs else addrs, slots).
+  let a0 : gset addr := match dst with Some d => {[d]} ∪ ({[sender]} ∪ ∅) | None => {[sender]} ∪ ∅ end in
+  let AS := foldl (λ (AS : gset addr * gset (addr * slot)) e,
+                     (({[e.1]} ∪ AS.1 : gset addr),
+                      foldl (λ (S : gset (addr * slot)) k, {[(e.1, k)]} ∪ S) AS.2 e.2))
+                  (a0, ∅) l in
+  (if rShanghai r then {[coinbase]} ∪ AS.1 else AS.1, AS.2).
 
 (* end-of-transaction treatment of one account; None = the account is deleted *)
 Definition fin_acct (r : rules) (is_touched : bool) (x : racct) : option racct :=
